@@ -79,7 +79,7 @@ def Registry_Unregister : List String := ["mu.Lock", "defer mu.Unlock", "@r.mapp
 def UpdateMapping : List String := ["GetMapping", "Validate", "HTTPDomainMappingKey", "storage.Set"]
 def generateMappingID : List String := ["Incr"]
 def lookupFromRepositoryWithRepo : List String := ["repo.LookupByDomain", "IsActive", "IsExpired", "convertHTTPDomainMappingToPortMapping"]
-def lookupMapping : List String := ["extractDomain", "lookupFromRepositoryWithRepo", "IsCode", "registry.LookupByHost", "CloudControl.GetPortMappingByDomain"]
+def lookupMapping : List String := ["extractDomain", "lookupFromRepositoryWithRepo", "IsCode", "registry.LookupByHost", "CloudControl.GetPortMappingByDomain", "registry.Register"]
 end Skel
 
 end Gen
